@@ -149,76 +149,140 @@ func AllNames() []string {
 
 func deviceJSON(d *specs.Device) string { b, _ := json.Marshal(d); return string(b) }
 
-// CompareCache checks every query of the cache against the resolution. It
-// returns "" if they agree. dirKeys: the configured directories (their error
-// keys are not file errors).
+// DevView is what the query API tells about one device.
+type DevView struct {
+	Path     string `json:"path"`
+	Priority int    `json:"priority"`
+	Device   string `json:"device"` // JSON of the device definition
+	Spec     string `json:"spec"`   // JSON of the Spec it belongs to
+	QName    string `json:"qname"`  // GetQualifiedName()
+}
+
+// SpecView is one Spec returned by GetVendorSpecs.
+type SpecView struct {
+	Path     string `json:"path"`
+	Priority int    `json:"priority"`
+	Vendor   string `json:"vendor"`
+	Spec     string `json:"spec"`
+	NErrors  int    `json:"nErrors"` // len(GetSpecErrors(spec))
+}
+
+// View is everything observable through the query API of a cache.
+type View struct {
+	Devices     []string              `json:"devices"`
+	Dev         map[string]*DevView   `json:"dev"` // GetDevice for every name of the pools and every listed name
+	Vendors     []string              `json:"vendors"`
+	Classes     []string              `json:"classes"`
+	VendorSpecs map[string][]SpecView `json:"vendorSpecs"`
+	Errors      map[string][]string   `json:"errors"`
+	RefreshErr  string                `json:"refreshErr"`
+}
+
+// Observe queries the cache.
+func Observe(c *cdi.Cache) *View {
+	v := &View{Dev: map[string]*DevView{}, VendorSpecs: map[string][]SpecView{}, Errors: map[string][]string{}}
+	v.Devices = c.ListDevices()
+	names := append(AllNames(), v.Devices...)
+	for _, q := range names {
+		dev := c.GetDevice(q)
+		if dev == nil {
+			continue
+		}
+		sj, _ := json.Marshal(dev.GetSpec().Spec)
+		v.Dev[q] = &DevView{Path: dev.GetSpec().GetPath(), Priority: dev.GetSpec().GetPriority(), Device: deviceJSON(dev.Device), Spec: string(sj), QName: dev.GetQualifiedName()}
+	}
+	v.Vendors = c.ListVendors()
+	v.Classes = c.ListClasses()
+	for _, vd := range append(append(append([]string{}, Vendors...), "unknown.vendor"), v.Vendors...) {
+		if _, done := v.VendorSpecs[vd]; done {
+			continue
+		}
+		v.VendorSpecs[vd] = []SpecView{}
+		for _, s := range c.GetVendorSpecs(vd) {
+			b, _ := json.Marshal(s.Spec)
+			v.VendorSpecs[vd] = append(v.VendorSpecs[vd], SpecView{Path: s.GetPath(), Priority: s.GetPriority(), Vendor: s.GetVendor(), Spec: string(b), NErrors: len(c.GetSpecErrors(s))})
+		}
+	}
+	for k, errs := range c.GetErrors() {
+		v.Errors[k] = []string{}
+		for _, e := range errs {
+			v.Errors[k] = append(v.Errors[k], fmt.Sprint(e))
+		}
+	}
+	return v
+}
+
+// CompareCache checks every query of the cache against the resolution.
 func CompareCache(c *cdi.Cache, l *Layout, r *Resolution) string {
+	return CompareView(Observe(c), l, r)
+}
+
+// CompareView checks an observation against the resolution. It returns ""
+// if they agree.
+func CompareView(v *View, l *Layout, r *Resolution) string {
 	want := r.SortedDevices()
-	got := c.ListDevices()
-	if strings.Join(got, " ") != strings.Join(want, " ") {
-		return fmt.Sprintf("ListDevices = %v, want %v", got, want)
+	if strings.Join(v.Devices, " ") != strings.Join(want, " ") {
+		return fmt.Sprintf("ListDevices = %v, want %v", v.Devices, want)
 	}
 	for _, q := range AllNames() {
-		dev := c.GetDevice(q)
+		dev := v.Dev[q]
 		w, ok := r.Devices[q]
 		if !ok {
 			if dev != nil {
-				return fmt.Sprintf("GetDevice(%q) resolves to %s although it must not resolve (defined=%v conflicted=%v)", q, dev.GetSpec().GetPath(), r.Defined[q], r.Conflicted[q])
+				return fmt.Sprintf("GetDevice(%q) resolves to %s although it must not resolve (defined=%v conflicted=%v)", q, dev.Path, r.Defined[q], r.Conflicted[q])
 			}
 			continue
 		}
 		if dev == nil {
 			return fmt.Sprintf("GetDevice(%q) = nil, want the definition in %s", q, w.Path)
 		}
-		if dev.GetSpec().GetPath() != w.Path || dev.GetSpec().GetPriority() != w.Priority {
-			return fmt.Sprintf("GetDevice(%q) resolves to %s (priority %d), want %s (priority %d)", q, dev.GetSpec().GetPath(), dev.GetSpec().GetPriority(), w.Path, w.Priority)
+		if dev.Path != w.Path || dev.Priority != w.Priority {
+			return fmt.Sprintf("GetDevice(%q) resolves to %s (priority %d), want %s (priority %d)", q, dev.Path, dev.Priority, w.Path, w.Priority)
 		}
-		if a, b := deviceJSON(dev.Device), deviceJSON(w.Device); a != b {
+		if a, b := dev.Device, deviceJSON(w.Device); a != b {
 			return fmt.Sprintf("GetDevice(%q) has definition %s, want %s", q, a, b)
 		}
-		if dev.GetQualifiedName() != q {
-			return fmt.Sprintf("GetDevice(%q).GetQualifiedName() = %q", q, dev.GetQualifiedName())
+		if dev.QName != q {
+			return fmt.Sprintf("GetDevice(%q).GetQualifiedName() = %q", q, dev.QName)
 		}
-		specJSON, _ := json.Marshal(dev.GetSpec().Spec)
 		wantJSON, _ := json.Marshal(w.File.Spec)
-		if string(specJSON) != string(wantJSON) {
-			return fmt.Sprintf("Spec of %q is %s, want %s", q, specJSON, wantJSON)
+		if dev.Spec != string(wantJSON) {
+			return fmt.Sprintf("Spec of %q is %s, want %s", q, dev.Spec, wantJSON)
 		}
 	}
-	if gv := c.ListVendors(); strings.Join(gv, " ") != strings.Join(r.Vendors, " ") {
-		return fmt.Sprintf("ListVendors = %v, want %v", gv, r.Vendors)
+	if strings.Join(v.Vendors, " ") != strings.Join(r.Vendors, " ") {
+		return fmt.Sprintf("ListVendors = %v, want %v", v.Vendors, r.Vendors)
 	}
-	if gc := c.ListClasses(); strings.Join(gc, " ") != strings.Join(r.Classes, " ") {
-		return fmt.Sprintf("ListClasses = %v, want %v", gc, r.Classes)
+	if strings.Join(v.Classes, " ") != strings.Join(r.Classes, " ") {
+		return fmt.Sprintf("ListClasses = %v, want %v", v.Classes, r.Classes)
 	}
-	for _, v := range append(append([]string{}, Vendors...), "unknown.vendor") {
-		// compared as a set of (path, priority) pairs with their content: a directory
-		// listed twice is scanned twice, whether its Specs are then listed once or
-		// twice is not something the statement fixes
+	for _, vd := range append(append([]string{}, Vendors...), "unknown.vendor") {
+		// compared as a set of paths with their content: a directory listed twice is
+		// scanned twice, whether its Specs are then listed once or twice is not
+		// something the statement fixes
 		wantSet := map[string]string{}
-		for _, ref := range r.Specs[v] {
+		for _, ref := range r.Specs[vd] {
 			b, _ := json.Marshal(ref.File.Spec)
 			wantSet[ref.Path] = string(b)
 		}
 		gotSet := map[string]string{}
-		for _, s := range c.GetVendorSpecs(v) {
-			b, _ := json.Marshal(s.Spec)
-			gotSet[s.GetPath()] = string(b)
-			if s.GetVendor() != v {
-				return fmt.Sprintf("GetVendorSpecs(%q) returned a Spec of vendor %q", v, s.GetVendor())
+		for _, s := range v.VendorSpecs[vd] {
+			gotSet[s.Path] = s.Spec
+			if s.Vendor != vd {
+				return fmt.Sprintf("GetVendorSpecs(%q) returned a Spec of vendor %q", vd, s.Vendor)
 			}
 		}
 		if len(gotSet) != len(wantSet) {
-			return fmt.Sprintf("GetVendorSpecs(%q) = %v, want %v", v, keys(gotSet), keys(wantSet))
+			return fmt.Sprintf("GetVendorSpecs(%q) = %v, want %v", vd, keys(gotSet), keys(wantSet))
 		}
 		for p, js := range wantSet {
 			if gotSet[p] != js {
-				return fmt.Sprintf("GetVendorSpecs(%q): Spec %s is %s, want %s", v, p, gotSet[p], js)
+				return fmt.Sprintf("GetVendorSpecs(%q): Spec %s is %s, want %s", vd, p, gotSet[p], js)
 			}
 		}
 	}
 	// errors: no key may be a valid file that is in no conflict
-	for k := range c.GetErrors() {
+	for k := range v.Errors {
 		if r.GoodFiles[k] {
 			return fmt.Sprintf("GetErrors() has an entry for %s, a valid Spec file without conflicts", k)
 		}
